@@ -848,6 +848,9 @@ func (w *c15World) sweep(thorough bool) {
 func TestVerifC15(t *testing.T) {
 	c := mc.Begin(t, "C15", "model_checking")
 	defer c.End()
+	// the whole search is serial (process-global clock and randomness); one P keeps the node assembly's goroutine hand-off
+	// on this thread, which matters on an oversubscribed machine
+	defer runtime.GOMAXPROCS(runtime.GOMAXPROCS(1))
 	st := &c15Stats{}
 
 	run := func(hist []string) *c15World {
